@@ -1,10 +1,18 @@
 """C03 — identifiers stay stable through the whole simulation lifecycle."""
+import os
 import re
+import shutil
+
+import numpy as np
 
 import common
 import screenlib as sl
 import simlib
 from common import ImplError
+
+import logging
+
+logging.getLogger("batchie").setLevel(logging.ERROR)
 
 ID = "C03"
 LEVEL = "proof"
@@ -16,7 +24,11 @@ RULE = ("kind sim: a parent screen (1-5 plates, most unobserved, arity 1-3, name
         "save+load through h5py / the reveal_plate CLI main() runs on the training or the test half; after EVERY "
         "operation rows, treatment_ids, sample_ids, plate_ids, the three mappings and the ExperimentSpace sizes are "
         "compared with the extracted model.  The model variant (which of reveal/mask/unmask pass the mappings on) is "
-        "detected from the behaviour of the real functions on a probe.  Non-trivial: >= 1 operation and >= 2 parent "
+        "detected from the behaviour of the real functions on a probe.  kind prepare (implementation-only predicate): the "
+        "prepare_retrospective_simulation CLI main() runs in-process on a saved fully observed screen with random generator / "
+        "smoother / initial-plate options and hold-out fraction; the training and test screens it writes, and the training "
+        "screen after a reveal, must give one id to one sample name and to one (treatment, dose), and the training mappings "
+        "must know every condition of the test screen.  Non-trivial: >= 1 operation and >= 2 parent "
         "rows; distinct by canonical description.")
 THEOREMS = {
     "C03_split_keeps_mappings": "both halves of any hold-out split carry the parent's treatment and sample mapping verbatim and number their rows by them (true of today's code)",
@@ -139,6 +151,18 @@ def gen(rng, tier):
         test = rng.random() < (0.08 if fraction == 0.0 else 0.4)
         yield dict(kind="sim", parent=parent, fraction=fraction, seed=rng.randrange(10 ** 6), test=test,
                    ops=simlib.gen_ops(rng, with_setobs=False, cli=(rng.random() < 0.5)))
+    # the prepared simulation as the prepare_retrospective_simulation CLI makes it (generator / smoother / initial plate options)
+    import retrolib as L
+    R = "batchie.retrospective."
+    for i in range(60 * N):
+        sd = L.gen_screen(rng, all_observed=True, style=rng.choice(["one_sample_plates", "one_sample_plates", "many_plates", "mixed"]))
+        sizes = [1, 1, 2, 2, 3, 4]
+        g = rng.choice([None, None, ["PlatePermutationPlateGenerator", {}], ["SampleSegregatingPermutationPlateGenerator", dict(max_plate_size=rng.choice(sizes))]])
+        sm = rng.choice([None, ["FixedSizeSmoother", dict(plate_size=rng.choice(sizes))], ["OptimalSizeSmoother", {}],
+                         ["MergeMinPlateSmoother", dict(min_size=rng.choice([2, 3, 4, 6]))], ["MergeTopBottomPlateSmoother", dict(n_iterations=rng.choice([1, 2]))],
+                         ["NPlatePerCellLineSmoother", dict(min_n_cell_line_plates=rng.choice([1, 2, 3]))]])
+        ini = rng.choice([None, None, ["SparseCoverPlateGenerator", dict(reveal_single_treatment_experiments=rng.choice(["True", "False"]))]])
+        yield dict(kind="prepare", screen=sd, gen=g, smooth=sm, init=ini, fraction=rng.choice([0.1, 0.25, 0.5, 0.5, 1.0]), seed=rng.randrange(10 ** 6))
 
 
 def _features(desc, h):
@@ -177,7 +201,69 @@ def _features(desc, h):
     return sorted(set(f))
 
 
+def _name_ids(s):
+    sm = {str(n): int(i) for n, i in zip(*s.sample_mapping)}
+    tm = {(str(n), float(d)): int(i) for n, d, i in zip(*s.treatment_mapping)}
+    rows_s = {str(n): int(i) for n, i in zip(s.sample_names, s.sample_ids)}
+    rows_t = {(str(n), float(d)): int(i) for n, d, i in zip(s.treatment_names.reshape(-1), s.treatment_doses.reshape(-1), s.treatment_ids.reshape(-1))}
+    return sm, tm, rows_s, rows_t
+
+
+def _run_prepare(desc):
+    """the prepared simulation as the CLI makes it: prepare_retrospective_simulation.main() in-process on a saved screen;
+    implementation-only predicate: the training and the test screen it writes (and the screens reloaded / revealed from
+    them) give one id to one sample name and to one (treatment, dose)"""
+    import retrolib as L
+    from batchie.cli import prepare_retrospective_simulation as cli
+    from batchie.data import Screen
+    from batchie.retrospective import reveal_plates
+
+    d = simlib.tmpdir()
+    feats = ["prepare"] + sorted("opt_" + k for k in ("gen", "smooth", "init") if desc.get(k))
+    try:
+        built = common.impl_call(sl.build, desc["screen"])
+        if isinstance(built, ImplError) or built.size == 0:
+            return dict(wire=None, impl=None, pred=None, features=feats + ["trivial"])
+        src, tr, te = (os.path.join(d, n) for n in ("data.h5", "train.h5", "test.h5"))
+        built.save_h5(src)
+        argv = ["prep", "--data", src, "--training-output", tr, "--test-output", te, "--holdout-fraction", repr(desc["fraction"]), "--seed", str(desc["seed"])]
+        for opt, key in (("--plate-generator", "gen"), ("--plate-smoother", "smooth"), ("--initial-plate-generator", "init")):
+            if desc.get(key):
+                argv += [opt, desc[key][0]]
+                for k, v in desc[key][1].items():
+                    argv += [opt + "-param", "%s=%s" % (k, v)]
+        r = common.impl_call(lambda: common.run_cli_main(cli, argv))
+        if isinstance(r, ImplError):
+            return dict(wire=None, impl=None, pred=None, features=feats + ["refused", "trivial"])
+        a, b = Screen.load_h5(tr), Screen.load_h5(te)
+        stages = [("training", a), ("test", b)]
+        un = [int(x) for x in np.unique(a.plate_ids[~a.observation_mask])]
+        if un:
+            stages.append(("training after reveal", reveal_plates(a, un[:1])))
+            feats.append("reveal_after_prepare")
+        pred = None
+        maps = [(n, _name_ids(s)) for n, s in stages]
+        for i, (n1, m1) in enumerate(maps):
+            for n2, m2 in maps[i + 1:]:
+                for which, k in (("sample", 0), ("treatment", 1)):
+                    for src1 in (m1[k], m1[k + 2]):
+                        for src2 in (m2[k], m2[k + 2]):
+                            for name in src1:
+                                if name in src2 and src1[name] != src2[name] and pred is None:
+                                    pred = "[prepare-ids-disagree] %s %r has id %d in the %s screen and id %d in the %s screen of one prepared simulation (argv %r)" % (
+                                        which, name, src1[name], n1, src2[name], n2, argv[7:])
+        if pred is None and (b.size > 0) and (set(maps[1][1][2]) - set(maps[0][1][0]) or set(maps[1][1][3]) - set(maps[0][1][1])):
+            pred = "[prepare-mapping-misses-holdout] the training screen's mappings do not know a sample / (treatment, dose) of the test screen: embedding sizes implied by the two halves differ"
+        if set(maps[1][1][2]) - set(maps[0][1][2]):
+            feats.append("sample_only_in_other_half")
+        return dict(wire=None, impl=None, pred=pred, features=feats)
+    finally:
+        shutil.rmtree(d, ignore_errors=True)
+
+
 def run(desc):
+    if desc["kind"] == "prepare":
+        return _run_prepare(desc)
     h = simlib.run_history(desc, sl.canon_screen)
     pred = _pred(desc, h)
     return dict(wire=simlib.wire_sim(desc, h), impl=_canon_impl(h), pred=pred, features=_features(desc, h), cmp=simlib.cmp_sim)
@@ -200,6 +286,14 @@ def _sig_desc(desc):
 
 def shrink(desc):
     """smaller descriptions with the SAME failure signature (so a minimised witness stays the same finding)"""
+    if desc["kind"] == "prepare":
+        rows = desc["screen"]["rows"]
+        for i in range(len(rows)):
+            yield dict(desc, screen=dict(desc["screen"], rows=rows[:i] + rows[i + 1:]))
+        for k in ("gen", "init"):
+            if desc.get(k):
+                yield dict(desc, **{k: None})
+        return
     want = _sig_desc(desc)
     cands = []
     ops = desc["ops"]
